@@ -390,6 +390,10 @@ func (server *Server) getTileAttempt(ctx context.Context, httpHeaders map[string
 		if dirValue.badEtag {
 			return 500, httpHeaders, []byte("I/O Error"), rootValue.etag
 		}
+		if !dirValue.ok {
+			// the directory could not be fetched: this is not the same as the tile being absent
+			return 500, httpHeaders, []byte("I/O Error"), ""
+		}
 		directory := dirValue.directory
 		entry, ok := findTile(directory, tileID)
 		if !ok {
